@@ -66,7 +66,7 @@ def arrange(draw, spec0, log):
     steps = draw(st.integers(1, 4))
     for _ in range(steps):
         kind = draw(st.sampled_from(['permute-types', 'permute-modules', 'split', 'inline', 'extract',
-                                     'inline', 'extract']))
+                                     'inline', 'extract', 'merge', 'merge']))
         if kind == 'permute-types':
             m = spec.modules[draw(st.integers(0, len(spec.modules) - 1))]
             if len(m.types) > 1:
@@ -78,6 +78,8 @@ def arrange(draw, spec0, log):
                 log.append('permute-modules')
         elif kind == 'split':
             do_split(draw, spec, log)
+        elif kind == 'merge':
+            do_merge(draw, spec, log)
         elif kind == 'inline':
             do_inline(draw, spec, log)
         elif kind == 'extract':
@@ -127,6 +129,56 @@ def do_split(draw, spec, log):
     log.append('split')
 
 
+def do_merge(draw, spec, log):
+    """move every definition of one module into another module with the same tag and extensibility defaults (the
+    reverse of split): every reference then resolves locally"""
+    pairs = []
+    for a in spec.modules:
+        for b in spec.modules:
+            if a is b or a.tagdefault != b.tagdefault or a.ext_implied != b.ext_implied:
+                continue
+            names_a = {n for n, _ in a.types} | {n for n, _ in a.values}
+            names_b = {n for n, _ in b.types} | {n for n, _ in b.values}
+            if names_a & names_b:
+                continue
+            # a name imported by one of them from a third module must mean the same in the merged module
+            imp = {}
+            clash = False
+            for m in (a, b):
+                for frm, syms in m.imports.items():
+                    if frm in (a.name, b.name):
+                        continue
+                    for sname in syms:
+                        if imp.setdefault(sname, frm) != frm or sname in names_a | names_b:
+                            clash = True
+            if not clash:
+                pairs.append((a, b))
+    if not pairs:
+        return
+    a, b = pairs[draw(st.integers(0, len(pairs) - 1))]
+    # b is merged into a
+    a.types = list(a.types) + list(b.types)
+    a.values = list(a.values) + list(b.values)
+    for frm, syms in b.imports.items():
+        if frm == a.name:
+            continue
+        for sname in syms:
+            if sname not in a.imports.setdefault(frm, []):
+                a.imports[frm].append(sname)
+    a.imports.pop(b.name, None)
+    a.imports = {k: v for k, v in a.imports.items() if v}
+    moved = {n for n, _ in b.types} | {n for n, _ in b.values}
+    for o in spec.modules:
+        if o is a or o is b:
+            continue
+        if b.name in o.imports:
+            for sname in o.imports.pop(b.name):
+                if sname not in o.imports.setdefault(a.name, []):
+                    o.imports[a.name].append(sname)
+    spec.modules = [m for m in spec.modules if m is not b]
+    log.append('merge')
+
+
 def do_inline(draw, spec, log):
     cands = []
     for mod in spec.modules:
@@ -150,19 +202,31 @@ def do_inline(draw, spec, log):
                     continue
                 if is_recursive(spec, tmod, r.ref):
                     continue
-                # the copy's own references must resolve identically from mod
+                # the copy's own references must resolve identically from mod; a name that is not visible there at
+                # all is imported from the module that defines it
                 ok = True
+                need = []
                 for rr in set(refs_of(target)):
                     try:
-                        if spec.lookup(rr, mod.name) != spec.lookup(rr, tmod):
-                            ok = False
+                        want = spec.lookup(rr, tmod)
                     except KeyError:
                         ok = False
+                        continue
+                    try:
+                        if spec.lookup(rr, mod.name) != want:
+                            ok = False
+                    except KeyError:
+                        need.append((rr, want[1]))
                 if ok:
-                    cands.append((mem, target))
+                    cands.append((mem, target, mod, need))
     if not cands:
         return
-    mem, target = cands[draw(st.integers(0, len(cands) - 1))]
+    mem, target, mod, need = cands[draw(st.integers(0, len(cands) - 1))]
+    for rr, frm in need:
+        if rr not in mod.imports.get(frm, []):
+            mod.imports.setdefault(frm, []).append(rr)
+    if need:
+        log.append('inline-with-import')
     new = copy.deepcopy(target)
     if mem.ty.tag is not None:
         new.tag = mem.ty.tag
